@@ -374,10 +374,11 @@ class FakeNumpy:
         for p in parts:
             if len(p.shape) != len(p0.shape) or not all(sz_eq(x, y) for x, y in zip(p.shape, p0.shape)):
                 raise value_error('all input arrays must have the same shape')
-        shape = list(p0.shape); legs = list(p0.legs)
+        shape = list(p0.shape)
         ax = axis if axis >= 0 else len(shape) + 1 + axis
-        shape.insert(ax, len(parts)); legs.insert(ax, _leg(len(parts), 'stack'))
-        return Arr(shape, legs, A.join_dtype(*[p.dt for p in parts]), None, {}, 'stack')
+        # np.stack = concatenation, along a new axis, of the parts given that axis with size one (block assembly like np.concatenate)
+        lifted = [A.reshape(p, shape[:ax] + [1] + shape[ax:]) for p in parts]
+        return concat(lifted, ax)
 
     @staticmethod
     def sum(a, axis=None, **k):
@@ -658,7 +659,19 @@ def einsum(pattern, *ops):
             raise value_error(f'einsum: output label {ch!r} does not appear in the inputs')
         oshape.append(size[ch])
         olegs.append(holders[ch][0][1])
-    return Arr(oshape, olegs, A.join_dtype(*[o.dt for o in ops]), None, {'einsum': (pattern, ops)}, 'einsum')
+    r = Arr(oshape, olegs, A.join_dtype(*[o.dt for o in ops]), None, {'einsum': (pattern, ops)}, 'einsum')
+    if len(ops) == 2 and len(pairs) == 1:
+        # a plain two-operand contraction over one index whose output keeps (remaining axes of the first, remaining axes of the second): same
+        # matrix-expression rule as np.tensordot
+        ((ka, kb), (ax_a, ax_b)), = pairs.items()
+        if len(ax_a) == 1:
+            rest_a = ''.join(ch for k_, ch in enumerate(ins[ka]) if k_ != ax_a[0])
+            rest_b = ''.join(ch for k_, ch in enumerate(ins[kb]) if k_ != ax_b[0])
+            if out == rest_a + rest_b and not (set(rest_a) & set(rest_b)):
+                A.mx_after_contract(r, ops[ka], ops[kb], list(ax_a), list(ax_b))
+            elif out == rest_b + rest_a and not (set(rest_a) & set(rest_b)):
+                A.mx_after_contract(r, ops[kb], ops[ka], list(ax_b), list(ax_a))
+    return r
 
 
 # ------------------------------------------------------------------------------------------------ decompositions
@@ -801,6 +814,31 @@ def lu_factor(a, overwrite_a=False, check_finite=True):
     return (LU(a), Arr([a.shape[0]], None, 'int', None, {}, 'piv'))
 
 
+def cho_factor(a, lower=False, overwrite_a=False, check_finite=True):
+    """Cholesky factorisation handle of a (Hermitian positive definite) matrix: solving with it solves the system of `a`"""
+    a = as_arr(a)
+    check_square_system(a, 'cho_factor')
+    _destructive(a, overwrite_a, 'cho_factor(overwrite_a=True)')
+    return (LU(a), lower)
+
+
+def cho_solve(c_and_lower, b, overwrite_b=False, check_finite=True):
+    c = c_and_lower[0]
+    if not isinstance(c, LU):
+        raise Raised('TypeError', 'cho_solve: first argument is not the result of cho_factor')
+    return solve(c.a, b, what='cho_solve', overwrite_b=overwrite_b)
+
+
+def khatri_rao(a, b):
+    """column-wise Kronecker product: (m x k), (n x k) -> (m n x k); the row index is the merged pair (row of a, row of b), the column index is shared"""
+    a, b = as_arr(a), as_arr(b)
+    if a.ndim != 2 or b.ndim != 2:
+        raise value_error('khatri_rao: the input arrays must be 2-D')
+    if not sz_eq(a.shape[1], b.shape[1]):
+        raise value_error('khatri_rao: the number of columns of the two arrays must be equal')
+    return Arr([a.shape[0] * b.shape[0], a.shape[1]], [tuple(a.legs[0]) + tuple(b.legs[0]), a.legs[1] or b.legs[1]], A.join_dtype(a.dt, b.dt), None, {'khatri_rao': (a, b)}, 'khatri_rao')
+
+
 def lu_solve(lu_and_piv, b, trans=0, overwrite_b=False, check_finite=True):
     lu = lu_and_piv[0]
     if not isinstance(lu, LU):
@@ -935,6 +973,9 @@ class FakeScipyLinalg:
     solve = staticmethod(lambda a, b, **k: solve(a, b, 'lin.solve', **{x: y for x, y in k.items() if x in ('overwrite_a', 'overwrite_b')}))
     lu_factor = staticmethod(lu_factor)
     lu_solve = staticmethod(lu_solve)
+    cho_factor = staticmethod(cho_factor)
+    cho_solve = staticmethod(cho_solve)
+    khatri_rao = staticmethod(khatri_rao)
     lstsq = staticmethod(lstsq)
     eig = staticmethod(eig)
     eigh = staticmethod(eigh)
